@@ -22,7 +22,7 @@ SPEC = {
               "Data": "Bytes", "Hash": "Bytes", "Nonce": "Bytes", "MsgVerifier": "Verifier",
               "MsgSigner": "Signer", "SystemTime": "Rs.Time", "Duration": "Rs.Time", "SocketAddr": "Nat",
               "ServerStats": "(List Stats.Event)", "UdpSocket": "Gen.Sock", "Grease": "Gen.GreaseQ",
-              "KmsProvider": "Envelope.Kms", "KmsError": "Unit", "ServerConfig": "Config.Cfg"},
+              "KmsProvider": "Envelope.Kms", "KmsError": "Unit", "ServerConfig": "Config.Cfg", "IpAddr": "Nat"},
     # translated structs (fields of other types must be listed under skip_fields)
     "structs": {
         "RtMessage": {},
@@ -31,16 +31,22 @@ SPEC = {
         "ParsedResponse": {},
         "TagData": {},
         "VersionData": {},
+        "ClientStats": {},
+        "AggregatedStats": {"skip_fields": ["empty_map"]},
+        "PerClientStats": {},
         "MsgSigner": {},
         "MsgVerifier": {},
         "OnlineKey": {},
         "LongTermKey": {},
         "Responder": {"skip_fields": ["thread_id", "long_term_public_key"]},
+        "Server": {"derive": "Inhabited", "skip_fields": ["health_listener", "poll_duration", "poll", "thread_name", "stats_pub_freq", "stats_pub_timer",
+                                   "stats_queue", "fake_client_socket"]},
     },
     "variants": {
         "Tag::*": "Tag.{v}",
         "Version::Google": "Version.google",
         "KmsProtection::Plaintext": "true",
+        "ErrorKind::WouldBlock": "Gen.ErrorKind.wouldBlock",
         "Version::RfcDraft13": "Version.ietf",
     },
     # calls that are not translated but mapped onto the hand model / prelude.
@@ -97,10 +103,18 @@ SPEC = {
         "Metadata::permissions": {"lean": "{self}", "ret_rust": "Permissions"},
         "Permissions::readonly": {"lean": "(fs.readonly {self})"},
         "PathBuf::display": {"lean": "{self}"},
+        "Utc::now": {"lean": "()", "ret_rust": "UtcNow"},
+        "UtcNow::timestamp": {"lean": "(0 : Int)"},
         "SystemTime::duration_since": {"lean": "(Rs.durationSinceEpoch {self})", "result": True, "ret_rust": "Duration"},
         "Version::supported_versions_wire": {"lean": "Version.supportedWire"},
         # environment of send_responses (Rough/Gen/ServerExt.lean): clock reading, socket, fault injector, statistics
-        "SystemTime::now": {"lean": "now"},
+        "SystemTime::now": {"lean": "(Gen.Sock.now socket)"},
+        "UdpSocket::recv_from": {"lean": "(Gen.Sock.recvFrom {self} {0}).2.1", "res": "(Gen.Sock.recvFrom {self} {0}).1", "mutates": True,
+                                 "result": True, "mut_args": {"0": "(Gen.Sock.recvFrom {self} {0}).2.2"}},
+        "ErrorValue::kind": {"lean": "Gen.ErrorKind.wouldBlock"},
+        "ServerStats::add_ietf_request": {"lean": "({self} ++ [({ kind := Stats.Kind.ietfReq, addr := {0}, bytes := 0 } : Stats.Event)])", "mutates": True},
+        "ServerStats::add_classic_request": {"lean": "({self} ++ [({ kind := Stats.Kind.classicReq, addr := {0}, bytes := 0 } : Stats.Event)])", "mutates": True},
+        "ServerStats::add_invalid_request": {"lean": "({self} ++ [({ kind := Stats.Kind.invalidReq, addr := {0}, bytes := 0 } : Stats.Event)])", "mutates": True},
         "Encoding::encode": {"lean": "(hexOf {0})"},
         "UdpSocket::send_to": {"lean": "(Gen.Sock.sendTo {self} {0} {1}).2", "res": "(Gen.Sock.sendTo {self} {0} {1}).1", "mutates": True, "result": True},
         "Grease::should_add_error": {"lean": "(Gen.GreaseQ.draw {self}).2", "res": "(Gen.GreaseQ.draw {self}).1", "mutates": True},
@@ -133,6 +147,40 @@ SPEC = {
             "params": [("A", "Envelope.Aead")],
             "opaque_types": ["AES_256_GCM"],
             "functions": {"vec_zero_filled": {"params": []}, "EnvelopeEncryption::decrypt_seed": {}},
+        },
+        "StatsCore": {
+            "file": "src/stats/mod.rs",
+            "keep_externs": True,
+            "functions": {"ClientStats::new": {}, "ClientStats::merge": {}},
+        },
+        "StatsAgg": {
+            "file": "src/stats/aggregated.rs",
+            "keep_externs": True,
+            "imports": ["StatsCore"],
+            "functions": {k: {} for k in [
+                "AggregatedStats::new", "AggregatedStats@ServerStats::add_ietf_request", "AggregatedStats@ServerStats::add_classic_request",
+                "AggregatedStats@ServerStats::add_invalid_request", "AggregatedStats@ServerStats::add_failed_send_attempt",
+                "AggregatedStats@ServerStats::add_retried_send_attempt", "AggregatedStats@ServerStats::add_health_check",
+                "AggregatedStats@ServerStats::add_rfc_response", "AggregatedStats@ServerStats::add_classic_response",
+                "AggregatedStats@ServerStats::total_valid_requests", "AggregatedStats@ServerStats::total_invalid_requests",
+                "AggregatedStats@ServerStats::total_health_checks", "AggregatedStats@ServerStats::total_failed_send_attempts",
+                "AggregatedStats@ServerStats::total_responses_sent", "AggregatedStats@ServerStats::total_bytes_sent",
+                "AggregatedStats@ServerStats::clear"]},
+        },
+        "StatsPer": {
+            "file": "src/stats/per_client.rs",
+            "keep_externs": True,
+            "imports": ["StatsCore"],
+            "functions": {k: {} for k in [
+                "PerClientStats::too_many_entries", "PerClientStats::num_overflows",
+                "PerClientStats@ServerStats::add_ietf_request", "PerClientStats@ServerStats::add_classic_request",
+                "PerClientStats@ServerStats::add_invalid_request", "PerClientStats@ServerStats::add_failed_send_attempt",
+                "PerClientStats@ServerStats::add_retried_send_attempt", "PerClientStats@ServerStats::add_health_check",
+                "PerClientStats@ServerStats::add_rfc_response", "PerClientStats@ServerStats::add_classic_response",
+                "PerClientStats@ServerStats::total_valid_requests", "PerClientStats@ServerStats::total_invalid_requests",
+                "PerClientStats@ServerStats::total_health_checks", "PerClientStats@ServerStats::total_failed_send_attempts",
+                "PerClientStats@ServerStats::total_responses_sent", "PerClientStats@ServerStats::total_bytes_sent",
+                "PerClientStats@ServerStats::total_unique_clients", "PerClientStats@ServerStats::clear"]},
         },
         "Config": {
             "file": "src/config/mod.rs",
@@ -216,13 +264,21 @@ SPEC = {
             # log records are formatted lazily: `debug!` arguments are evaluated iff LOG ≥ 4 (error 1 … trace 5)
             "log_param": "LOG",
             "functions": {
-                "Responder::send_responses": {"params": [("S", "SigScheme"), ("H", "Bytes → Bytes"), ("LOG", "Nat")], "extra_params": [("now", "Rs.Time")]},
+                "Responder::send_responses": {"params": [("S", "SigScheme"), ("H", "Bytes → Bytes"), ("LOG", "Nat")]},
                 "Responder::reset": {},
                 "Responder::is_empty": {},
                 "Responder::add_classic_request": {},
                 "Responder::add_ietf_request": {},
                 "Responder::make_response": {},
             },
+        },
+        "Server": {
+            "file": "src/server.rs",
+            "imports": ["Message", "Merkle", "Online", "Responder", "Request"],
+            "lean_imports": ["Rough.Gen.ServerExt"],
+            "params": [("S", "SigScheme"), ("H", "Bytes → Bytes"), ("LOG", "Nat")],
+            "log_param": "LOG",
+            "functions": {"Server::collect_requests": {}, "Server::service_socket": {}},
         },
         "Client": {
             "file": "src/bin/roughenough-client.rs",
@@ -256,7 +312,7 @@ SPEC = {
     },
     "consts_extern": {"UNIX_EPOCH": "()", "AES_256_GCM": "()"},
     # constants defined in other files that the modules refer to
-    "const_files": ["src/lib.rs", "src/request.rs", "src/message.rs", "src/merkle.rs", "src/tag.rs", "src/bin/roughenough-client.rs", "src/key/longterm.rs", "src/key/online.rs", "src/responder.rs", "src/version.rs", "src/sign.rs", "src/kms/envelope.rs", "src/kms/mod.rs", "src/config/mod.rs"],
+    "const_files": ["src/lib.rs", "src/request.rs", "src/message.rs", "src/merkle.rs", "src/tag.rs", "src/bin/roughenough-client.rs", "src/key/longterm.rs", "src/key/online.rs", "src/responder.rs", "src/version.rs", "src/sign.rs", "src/kms/envelope.rs", "src/kms/mod.rs", "src/config/mod.rs", "src/server.rs", "src/stats/mod.rs", "src/stats/aggregated.rs", "src/stats/per_client.rs"],
 }
 
 
@@ -266,7 +322,7 @@ def emit_struct(crate, name, st, em_types):
     for fn, ft in st["fields"]:
         if fn in skip: continue
         lines.append(f"  {lname(fn)} : {em_types.lean_type(ft)}")
-    lines.append("  deriving Repr, DecidableEq, Inhabited")
+    lines.append("  deriving " + crate.spec["structs"][name].get("derive", "Repr, DecidableEq, Inhabited"))
     return lines
 
 
